@@ -58,7 +58,7 @@ func executeFlush(db *DB, flushAction memStoreFlushAction) error {
 	}
 
 	if walPath != "" {
-		err = os.Remove(walPath)
+		err = removeWalFilesUpTo(walPath)
 		if err != nil {
 			return err
 		}
@@ -82,6 +82,29 @@ func executeFlush(db *DB, flushAction memStoreFlushAction) error {
 	// add the newly created reader into the rotation
 	// note that this CAN block here waiting on a current compaction to finish
 	db.sstableManager.addReader(reader)
+
+	return nil
+}
+
+// removeWalFilesUpTo removes the given WAL file and every older WAL file next to it. The WAL can rotate on its own when
+// a file reaches its size limit, so a memstore may be backed by more than the one file that the rotation returned;
+// all files up to that one only hold records of memstores that are flushed by now.
+func removeWalFilesUpTo(walPath string) error {
+	walDir, lastName := filepath.Split(walPath)
+	entries, err := os.ReadDir(walDir)
+	if err != nil {
+		return err
+	}
+
+	for _, entry := range entries {
+		name := entry.Name()
+		if !entry.IsDir() && filepath.Ext(name) == filepath.Ext(lastName) && name <= lastName {
+			err = os.Remove(filepath.Join(walDir, name))
+			if err != nil {
+				return err
+			}
+		}
+	}
 
 	return nil
 }
